@@ -1,7 +1,9 @@
 """C08 — NSEC denial of existence: guard sets on the Secure yields of verify_nsec (RFC 4035 5.4,
 RFC 6840 4, RFC 4592), the cover test, no_closer_matches, authenticated inputs."""
 import re
+import argnames
 import helpers
+import C06
 from api import shorten
 import C09
 
@@ -159,5 +161,13 @@ def run(cx):
                                'rrsig-labels-lt-owner-labels': r'^lt\(SIG::input\(arg2\.1\.outcome@Secure\.rrsig\)\.num_labels,Name::num_labels\(arg2\.1\.outcome@Secure\.owner\)\)$'},
                  expect=1, fn=w)
 
+    # ---------------------------------------------------------------- A1 only authenticated, non-synthesised NSEC/NSEC3 enter the proof
+    C06.nsec_not_wildcard_expanded(cx, 'C08.A1')
+
     # ---------------------------------------------------------------- H helper semantics the guards above rely on (rules/helpers.py)
     helpers.check(cx, 'C08.H', ['Name::zone_of', 'Name::base_name', 'Name::trim_to', 'Name::is_wildcard', 'RecordTypeSet::contains', 'NSEC::type_set'])
+
+    # ---------------------------------------------------------------- N1 argument names agree with the parameters they are bound to (engine/argnames.py)
+    argnames.check(cx, 'C08.N1', r'hickory_net::dnssec', floor=80)
+    argnames.check_fields(cx, 'C08.N1', r'hickory_net::dnssec', floor=45)
+
